@@ -79,6 +79,7 @@ private:
   }
   void AfterInsert(EntityUID target);
   void ResetDependants(EntityUID target);
+  void ResetValuesFor(const SetOfEntities& entities);
 };
 
 } // namespace ccl::semantic
